@@ -36,6 +36,18 @@ D = [
    '            *sorted(zip(candidates, weights), key=lambda x: -x[1])',
    '            *sorted(zip(candidates, weights), key=lambda x: (-x[1], len(x[0]), min(x[0])))')],
    "subtree candidates get a deterministic secondary sort key: different but equally seeded-deterministic results"),
+ ("b10-gumbel-batched-from-own-rng","C17",[],[("cotengra/utils.py",
+   '    def __init__(self, seed=None):\n        self.rng = get_rng(seed)\n\n    def __call__(self):\n        return -math.log(-math.log(self.rng.random()))',
+   '    def __init__(self, seed=None):\n        self.rng = get_rng(seed)\n        self._batch = []\n\n    def __call__(self):\n        if not self._batch:\n            r = self.rng.random\n            self._batch = [-math.log(-math.log(r())) for _ in range(64)]\n        return self._batch.pop()')],
+   "Gumbel numbers drawn in batches of 64 from the generator's OWN seeded rng: another stream, still a function of the seed"),
+ ("b11-fingerprint-repr-text","C14",["C15"],[("cotengra/reusable.py",
+   '    return hashlib.sha1(\n        pickle.dumps(\n            (\n                tuple(map(sortedtuple, inputs)),\n                sortedtuple(output),\n                sortedtuple(size_dict.items()),\n            )\n        )\n    ).hexdigest()',
+   '    return hashlib.sha1(\n        repr(\n            (\n                tuple(map(sortedtuple, inputs)),\n                sortedtuple(output),\n                sortedtuple(size_dict.items()),\n            )\n        ).encode()\n    ).hexdigest()')],
+   "fingerprint 'a' hashes the repr() text of the same canonical tuple (unambiguous: quotes and commas delimit the labels)"),
+ ("b12-futures-list-made-in-init","C16",["C08"],[("cotengra/hyperoptimizers/hyper.py",
+   '        self._pool = parse_parallel_arg(parallel)',
+   '        self._pool = parse_parallel_arg(parallel)\n        self._futures = []')],
+   "the per-instance list of pending futures also exists right after construction (still one list per optimizer object)"),
 ]
 shutil.rmtree(OUT, ignore_errors=True); os.makedirs(OUT)
 for mid, prop, also, edits, what in D:
